@@ -111,7 +111,7 @@ CreateFragment(d) == kind[d] = "doc" /\ NewNode("frag", d, "", <<>>) /\ Done("cr
 InsErrs(p, c, r) ==
     LET mv == Moved(c)
         rest == IF kind[c] = "frag" THEN kids[p] ELSE Remove(kids[p], c)
-    IN  (IF DocOf(c) # DocOf(p) THEN {"WRONG_DOCUMENT_ERR"} ELSE {})
+    IN  (IF DocOf(c) # DocOf(p) \/ kind[c] = "doc" THEN {"WRONG_DOCUMENT_ERR"} ELSE {})   \* a Document's ownerDocument is null
    \cup (IF \/ kind[p] \notin ParentKinds
             \/ AncOrSelf(c, p)
             \/ \E i \in 1..Len(mv) : ~KidOK(kind[p], kind[mv[i]])
@@ -136,7 +136,7 @@ InsertCommon(a, p, c, r) ==
     LET must == InsErrs(p, c, r)
         may == InsMayErrs(p, c)
         args == IF a = "appendChild" THEN <<p, c>> ELSE <<p, c, r>>
-    IN IF must # {} THEN Fail(a, args, "", <<>>, must)
+    IN IF must # {} THEN Fail(a, args, "", <<>>, must \cup may)
        ELSE \/ /\ may # {}
                /\ UNCHANGED tree
                /\ \E e \in may : last' = Op(a, args, "", <<>>, e, may \cup {"ok"})
@@ -160,7 +160,7 @@ RemoveChild(p, c) ==
 RepErrs(p, n, o) ==
     LET mv == Moved(n)
         rest == Remove(IF kind[n] = "frag" THEN kids[p] ELSE Remove(kids[p], n), o)
-    IN  (IF DocOf(n) # DocOf(p) THEN {"WRONG_DOCUMENT_ERR"} ELSE {})
+    IN  (IF DocOf(n) # DocOf(p) \/ kind[n] = "doc" THEN {"WRONG_DOCUMENT_ERR"} ELSE {})
    \cup (IF \/ kind[p] \notin ParentKinds
             \/ AncOrSelf(n, p)
             \/ \E i \in 1..Len(mv) : ~KidOK(kind[p], kind[mv[i]])
@@ -176,7 +176,7 @@ ReplaceChild(p, n, o) ==
     /\ n # o                      \* replaceChild(x, x): implementation dependent in DOM Level 3, not compared
     /\ LET must == RepErrs(p, n, o)
            may == RepMayErrs(p, n, o)
-       IN IF must # {} THEN Fail("replaceChild", <<p, n, o>>, "", <<>>, must)
+       IN IF must # {} THEN Fail("replaceChild", <<p, n, o>>, "", <<>>, must \cup may)
           ELSE \/ /\ may # {}
                   /\ UNCHANGED tree
                   /\ \E e \in may : last' = Op("replaceChild", <<p, n, o>>, "", <<>>, e, may \cup {"ok"})
